@@ -221,6 +221,14 @@ func (ex *Exec) indexAddr(x *ssa.IndexAddr, v Value, idx *term.T) Value {
 	case BSlice:
 		ex.boundsCheck(idx, a.len, "slice")
 		return Ptr{barr: a.arr, bidx: term.Add(a.off, idx)}
+	case LSlice:
+		ex.boundsCheck(idx, a.slen, "slice")
+		i := int(ex.Concretize(idx))
+		if i > 1<<16 {
+			ex.unsupported("index %d into lazily materialised slice", i)
+		}
+		a.materialize(i + 1)
+		return Ptr{cell: &a.b.cells[i]}
 	case Ptr: // pointer to array
 		if a.cell == nil {
 			ex.rtPanic("invalid memory address or nil pointer dereference")
@@ -267,6 +275,12 @@ func (ex *Exec) makeSlice(t types.Type, n, c *term.T) Value {
 	ex.allocHook(term.Mul(c, u64(uint64(esz))))
 	if isByteType(st.Elem()) {
 		return BSlice{arr: newZeroArr(c), off: zero64, len: n, cap: c}
+	}
+	if !n.IsConst() || !c.IsConst() {
+		if _, hi := n.Range(); hi > 64 {
+			// lazily materialised slice with symbolic length (cap taken equal to len)
+			return LSlice{b: &Backing{}, slen: n, et: st.Elem()}
+		}
 	}
 	cn := ex.Concretize(c)
 	nn := ex.Concretize(n)
@@ -368,6 +382,27 @@ func (ex *Exec) slice(x *ssa.Slice, fr *frame) Value {
 			return a
 		}
 		return Slice{b: a.b, off: a.off + l, len: h - l, cap: m - l}
+	case LSlice:
+		if hi == nil || mx != nil {
+			ex.unsupported("slice expression without high bound on a symbolic-length slice")
+		}
+		if !ex.Branch(term.Ule(hi, a.slen)) {
+			ex.rtPanic("slice bounds out of range")
+		}
+		h := int(ex.Concretize(hi))
+		l := 0
+		if lo != nil {
+			if !ex.Branch(term.Ule(lo, hi)) {
+				ex.rtPanic("slice bounds out of range")
+			}
+			l = int(ex.Concretize(lo))
+		}
+		if h > 1<<16 {
+			ex.unsupported("slice of %d elements of a lazily materialised slice", h)
+		}
+		a.materialize(h)
+		// capacity of the result is bounded by what is materialised (append beyond reallocates, as it may)
+		return Slice{b: a.b, off: l, len: h - l, cap: h - l}
 	case Ptr:
 		if a.cell == nil {
 			ex.rtPanic("invalid memory address or nil pointer dereference")
